@@ -16,7 +16,13 @@ for EVERY geometry record, offset and length:
   of every geometry the oracles parse from a boot sector (`classify_pointwise_parsed`);
 * `allowedWrite_iff_bytes`: the write-region / write-owner oracle is silent on a write exactly when every written byte
   lies in an allowed region (`regionAllowed`: status byte, FS-info, FATs, fixed root, clusters free before the
-  operation, clusters of objects the operation names) — no false alarm and no miss relative to `regionAt` / `ownerOf`.
+  operation, clusters of objects the operation names) — no false alarm and no miss relative to `regionAt` / `ownerOf`;
+* `regionAt_cluster_iff`, `regionAt_fat_iff`, `regionAt_root_iff`, `regionAt_beyond_iff`, `regionAt_status_iff`,
+  `regionAt_fsInfo_iff`: each label is exactly the byte range the layout offsets give it — "cluster c" is
+  `[clusterOff c, clusterOff (c+1))` inside the data region and the declared volume (the range every other oracle
+  reads as cluster c), "FAT copy k" is `[fatCopyStart k, fatCopyStart (k+1))`, "fixed root" is
+  `[rootStart, dataStart)`, "beyond" is everything at or after the end of the last cluster or of the volume, the
+  status byte is the byte at the BPB offset, the FS-info sector is sector `BPB_FSInfo` of a FAT32 volume.
 -/
 namespace FatVerif.Spec
 
@@ -480,5 +486,233 @@ theorem allowedWrite_iff_bytes (g : Geom) (hb : g.statusByteOffset < g.bps) (pre
     obtain ⟨h1, h2, h3, h4⟩ := (classify_covers g off len).2 p hp
     rw [← h4]
     exact h p.2.1 h1 (by omega)
+
+end FatVerif.Spec
+
+/-! ## what each region label means, in terms of the layout offsets -/
+
+namespace FatVerif.Spec
+
+theorem reservedSectorRegion_cases (g : Geom) (s : Nat) :
+    reservedSectorRegion g s = .fsInfo ∨ reservedSectorRegion g s = .backupBoot ∨
+    reservedSectorRegion g s = .reservedOther := by
+  unfold reservedSectorRegion
+  split
+  · exact .inl rfl
+  · split
+    · exact .inr (.inl rfl)
+    · exact .inr (.inr rfl)
+
+/-- the seven zones of `regionAt`, as one case split -/
+theorem regionAt_zones (g : Geom) (q : Nat) :
+    (q < g.fatStart ∧ ((regionAt g q).1 = .bootStatusByte ∨ (regionAt g q).1 = .bootOther ∨ (regionAt g q).1 = .fsInfo ∨
+        (regionAt g q).1 = .backupBoot ∨ (regionAt g q).1 = .reservedOther)) ∨
+    (g.fatStart ≤ q ∧ q < g.rootStart ∧ (regionAt g q).1 = .fat ((q - g.fatStart) / g.fatSizeBytes)) ∨
+    (g.rootStart ≤ q ∧ q < g.dataStart ∧ (regionAt g q).1 = .rootDir) ∨
+    (g.dataStart ≤ q ∧ q < g.dataEnd ∧ q < g.volumeBytes ∧
+        (regionAt g q).1 = .cluster ((q - g.dataStart) / g.clusterSize + 2)) ∨
+    (g.dataStart ≤ q ∧ ¬ (q < g.dataEnd ∧ q < g.volumeBytes) ∧ (regionAt g q).1 = .beyondVolume) := by
+  have hfr := g.fatStart_le_rootStart
+  have hrd := g.rootStart_le_dataStart
+  by_cases hA : q < g.fatStart
+  · refine .inl ⟨hA, ?_⟩
+    by_cases hs : q / g.bps = 0
+    · by_cases he : q = g.statusByteOffset
+      · exact .inl (regionAt_status g q hA hs he)
+      · exact .inr (.inl (regionAt_bootOther g q hA hs he))
+    · rw [regionAt_reserved g q hA hs]
+      rcases reservedSectorRegion_cases g (q / g.bps) with h | h | h <;> rw [h] <;> simp
+  · by_cases hB : q < g.rootStart
+    · exact .inr (.inl ⟨by omega, hB, regionAt_fat g q hA hB⟩)
+    · by_cases hC : q < g.dataStart
+      · exact .inr (.inr (.inl ⟨by omega, hC, regionAt_root g q hA hB hC⟩))
+      · by_cases hD : q < g.dataEnd ∧ q < g.volumeBytes
+        · exact .inr (.inr (.inr (.inl ⟨by omega, hD.1, hD.2, regionAt_cluster g q hA hB hC hD⟩)))
+        · exact .inr (.inr (.inr (.inr ⟨by omega, hD, regionAt_beyond g q hA hB hC hD⟩)))
+
+/-- **`regionAt_root_iff`**: "fixed root" = the bytes between the FAT copies and the data region -/
+theorem regionAt_root_iff (g : Geom) (q : Nat) :
+    (regionAt g q).1 = .rootDir ↔ (g.rootStart ≤ q ∧ q < g.dataStart) := by
+  constructor
+  · intro h
+    rcases regionAt_zones g q with ⟨_, h1⟩ | ⟨_, _, h1⟩ | ⟨a, b, _⟩ | ⟨_, _, _, h1⟩ | ⟨_, _, h1⟩
+    · rw [h] at h1; simp at h1
+    · rw [h] at h1; cases h1
+    · exact ⟨a, b⟩
+    · rw [h] at h1; cases h1
+    · rw [h] at h1; cases h1
+  · rintro ⟨a, b⟩
+    have hfr := g.fatStart_le_rootStart
+    exact regionAt_root g q (by omega) (by omega) b
+
+/-- **`regionAt_fat_iff`**: "FAT copy `k`" = the bytes `[fatCopyStart k, fatCopyStart (k+1))` before the root region -/
+theorem regionAt_fat_iff (g : Geom) (hf : 0 < g.fatSizeBytes) (q k : Nat) :
+    (regionAt g q).1 = .fat k ↔ (g.fatCopyStart k ≤ q ∧ q < g.fatCopyStart (k + 1) ∧ q < g.rootStart) := by
+  unfold Geom.fatCopyStart
+  constructor
+  · intro h
+    rcases regionAt_zones g q with ⟨_, h1⟩ | ⟨a, b, h1⟩ | ⟨_, _, h1⟩ | ⟨_, _, _, h1⟩ | ⟨_, _, h1⟩
+    · rw [h] at h1; simp at h1
+    · rw [h] at h1; cases h1
+      have h2 := Nat.div_mul_le_self (q - g.fatStart) g.fatSizeBytes
+      have h3 := lt_succ_div_mul (a := q - g.fatStart) hf
+      generalize (q - g.fatStart) / g.fatSizeBytes = n at h2 h3 ⊢
+      rw [Nat.add_mul, Nat.one_mul] at h3 ⊢
+      omega
+    · rw [h] at h1; cases h1
+    · rw [h] at h1; cases h1
+    · rw [h] at h1; cases h1
+  · rintro ⟨a, b, c⟩
+    rw [Nat.add_mul, Nat.one_mul] at b
+    rw [regionAt_fat g q (by omega) c]
+    have : (q - g.fatStart) / g.fatSizeBytes = k :=
+      Nat.div_eq_of_lt_le (by omega) (by rw [Nat.add_mul, Nat.one_mul]; omega)
+    rw [this]
+
+/-- **`regionAt_beyond_iff`**: "beyond the volume" = at or after the end of the last cluster or of the declared
+    volume (and not before the data region) -/
+theorem regionAt_beyond_iff (g : Geom) (q : Nat) :
+    (regionAt g q).1 = .beyondVolume ↔ (g.dataStart ≤ q ∧ (g.dataEnd ≤ q ∨ g.volumeBytes ≤ q)) := by
+  constructor
+  · intro h
+    rcases regionAt_zones g q with ⟨_, h1⟩ | ⟨_, _, h1⟩ | ⟨_, _, h1⟩ | ⟨_, _, _, h1⟩ | ⟨a, b, _⟩
+    · rw [h] at h1; simp at h1
+    · rw [h] at h1; cases h1
+    · rw [h] at h1; cases h1
+    · rw [h] at h1; cases h1
+    · exact ⟨a, by omega⟩
+  · rintro ⟨a, b⟩
+    have hfr := g.fatStart_le_rootStart
+    have hrd := g.rootStart_le_dataStart
+    exact regionAt_beyond g q (by omega) (by omega) (by omega) (by omega)
+
+end FatVerif.Spec
+
+namespace FatVerif.Spec
+
+/-- **`regionAt_cluster_iff`.**  The classifier labels a byte "cluster `c`" exactly when the byte lies in
+    `[clusterOff c, clusterOff (c+1))` — the byte range every other oracle (content decoding, extents, Fsck) reads as
+    cluster `c` — inside the data region and inside the declared volume; `c` is then a valid cluster number. -/
+theorem regionAt_cluster_iff (g : Geom) (hcs : 0 < g.clusterSize) (q c : Nat) :
+    (regionAt g q).1 = .cluster c ↔
+      (2 ≤ c ∧ g.clusterOff c ≤ q ∧ q < g.clusterOff (c + 1) ∧ q < g.dataEnd ∧ q < g.volumeBytes) := by
+  have hfr := g.fatStart_le_rootStart
+  have hrd := g.rootStart_le_dataStart
+  constructor
+  · intro h
+    by_cases hA : q < g.fatStart
+    · by_cases hs : q / g.bps = 0
+      · by_cases he : q = g.statusByteOffset
+        · rw [regionAt_status g q hA hs he] at h; cases h
+        · rw [regionAt_bootOther g q hA hs he] at h; cases h
+      · rw [regionAt_reserved g q hA hs] at h
+        unfold reservedSectorRegion at h
+        split at h
+        · cases h
+        · split at h <;> cases h
+    · by_cases hB : q < g.rootStart
+      · rw [regionAt_fat g q hA hB] at h; cases h
+      · by_cases hC : q < g.dataStart
+        · rw [regionAt_root g q hA hB hC] at h; cases h
+        · by_cases hD : q < g.dataEnd ∧ q < g.volumeBytes
+          · rw [regionAt_cluster g q hA hB hC hD] at h
+            cases h
+            have h1 := Nat.div_mul_le_self (q - g.dataStart) g.clusterSize
+            have h2 := lt_succ_div_mul (a := q - g.dataStart) hcs
+            rw [Nat.add_mul, Nat.one_mul] at h2
+            generalize (q - g.dataStart) / g.clusterSize = n at h1 h2 ⊢
+            refine ⟨by omega, ?_, ?_, hD.1, hD.2⟩
+            · unfold Geom.clusterOff
+              have : n + 2 - 2 = n := by omega
+              rw [this]; omega
+            · unfold Geom.clusterOff
+              have : n + 2 + 1 - 2 = n + 1 := by omega
+              rw [this, Nat.add_mul, Nat.one_mul]; omega
+          · rw [regionAt_beyond g q hA hB hC hD] at h; cases h
+  · rintro ⟨h2, hlo, hhi, hde, hvb⟩
+    unfold Geom.clusterOff at hlo hhi
+    have e1 : c + 1 - 2 = (c - 2) + 1 := by omega
+    rw [e1, Nat.add_mul, Nat.one_mul] at hhi
+    have hq : g.dataStart ≤ q := by omega
+    rw [regionAt_cluster g q (by omega) (by omega) (by omega) ⟨hde, hvb⟩]
+    have : (q - g.dataStart) / g.clusterSize = c - 2 :=
+      Nat.div_eq_of_lt_le (by omega) (by rw [Nat.add_mul, Nat.one_mul]; omega)
+    rw [this]
+    congr 1
+    omega
+
+/-- a byte labelled "cluster `c`" belongs to a cluster of the volume -/
+theorem regionAt_cluster_valid (g : Geom) (hcs : 0 < g.clusterSize) (q c : Nat)
+    (h : (regionAt g q).1 = .cluster c) : g.validCluster c = true := by
+  obtain ⟨h2, hlo, _, hde, _⟩ := (regionAt_cluster_iff g hcs q c).mp h
+  unfold Geom.clusterOff at hlo
+  unfold Geom.dataEnd at hde
+  have : (c - 2) * g.clusterSize < g.totalClusters * g.clusterSize := by omega
+  have := Nat.lt_of_mul_lt_mul_right this
+  simp [Geom.validCluster]
+  omega
+
+end FatVerif.Spec
+
+namespace FatVerif.Spec
+
+/-- **`regionAt_status_iff`**: the one byte the classifier calls "status byte" is the byte at the BPB offset of
+    `BS_Reserved1` (0x25 / 0x41), for every geometry with at least one reserved sector -/
+theorem regionAt_status_iff (g : Geom) (hb : g.statusByteOffset < g.bps) (hr : 0 < g.reserved) (q : Nat) :
+    (regionAt g q).1 = .bootStatusByte ↔ q = g.statusByteOffset := by
+  have hfs : g.bps ≤ g.fatStart := by
+    unfold Geom.fatStart
+    exact Nat.le_mul_of_pos_left _ hr
+  constructor
+  · intro h
+    by_cases hA : q < g.fatStart
+    · by_cases hs : q / g.bps = 0
+      · by_cases he : q = g.statusByteOffset
+        · exact he
+        · rw [regionAt_bootOther g q hA hs he] at h; cases h
+      · rw [regionAt_reserved g q hA hs] at h
+        unfold reservedSectorRegion at h
+        split at h
+        · cases h
+        · split at h <;> cases h
+    · by_cases hB : q < g.rootStart
+      · rw [regionAt_fat g q hA hB] at h; cases h
+      · by_cases hC : q < g.dataStart
+        · rw [regionAt_root g q hA hB hC] at h; cases h
+        · by_cases hD : q < g.dataEnd ∧ q < g.volumeBytes
+          · rw [regionAt_cluster g q hA hB hC hD] at h; cases h
+          · rw [regionAt_beyond g q hA hB hC hD] at h; cases h
+  · intro he
+    exact regionAt_status g q (by omega) (Nat.div_eq_of_lt (by omega)) he
+
+/-- **`regionAt_fsInfo_iff`**: "FS-info sector" = the bytes of sector `BPB_FSInfo` of a FAT32 volume, inside the
+    reserved area -/
+theorem regionAt_fsInfo_iff (g : Geom) (q : Nat) :
+    (regionAt g q).1 = .fsInfo ↔
+      (q < g.fatStart ∧ g.fatBits = 32 ∧ g.fsInfoSector ≠ 0 ∧ q / g.bps = g.fsInfoSector) := by
+  constructor
+  · intro h
+    by_cases hA : q < g.fatStart
+    · by_cases hs : q / g.bps = 0
+      · by_cases he : q = g.statusByteOffset
+        · rw [regionAt_status g q hA hs he] at h; cases h
+        · rw [regionAt_bootOther g q hA hs he] at h; cases h
+      · rw [regionAt_reserved g q hA hs] at h
+        unfold reservedSectorRegion at h
+        split at h
+        · rename_i hc; exact ⟨hA, hc⟩
+        · split at h <;> cases h
+    · by_cases hB : q < g.rootStart
+      · rw [regionAt_fat g q hA hB] at h; cases h
+      · by_cases hC : q < g.dataStart
+        · rw [regionAt_root g q hA hB hC] at h; cases h
+        · by_cases hD : q < g.dataEnd ∧ q < g.volumeBytes
+          · rw [regionAt_cluster g q hA hB hC hD] at h; cases h
+          · rw [regionAt_beyond g q hA hB hC hD] at h; cases h
+  · rintro ⟨hA, h32, hne, hq⟩
+    have hs : q / g.bps ≠ 0 := by rw [hq]; exact hne
+    rw [regionAt_reserved g q hA hs]
+    unfold reservedSectorRegion
+    rw [if_pos ⟨h32, hne, hq⟩]
 
 end FatVerif.Spec
